@@ -47,6 +47,9 @@ def logsumexp(a, axis=None, keepdims=False):
     9.4586297444267107
     """
     a = np.asarray(a)
+    if issubclass(a.dtype.type, (np.integer, np.bool_)):
+        # `a - a_max` must not wrap around in a small integer type
+        a = a.astype(float)
     a_max = np.amax(a, axis=axis, keepdims=True)
 
     if a_max.ndim > 0:
